@@ -21,7 +21,7 @@ def ontology():
     return OL.load_element(OL.ONTO(object_types=ots, event_types=[et], sources=[OL.SOURCE('/s/')]))
 
 
-VALUES = {'s': ['alpha', 'x y', 'Zed'], 'm': ['one', 'two', 'three', ''], 'f': ['1.500000E+00', '-2.250000E-03', '0.000000E+00', '1.000000E+10'],
+VALUES = {'s': ['alpha', 'x y', 'Zed', 'C:\\Users\\alice', '\\1', '\\g<0>', 'a\\'], 'm': ['one', 'two', 'three', '', 'back\\slash', '\\2'], 'f': ['1.500000E+00', '-2.250000E-03', '0.000000E+00', '1.000000E+10'],
           'n': ['5', '-17', '0'], 't0': ['2020-01-01T10:00:00.000000Z', '1999-12-31T23:59:59.999999Z'],
           't1': ['2020-01-02T11:30:05.000001Z', '2021-06-15T00:00:00.000000Z', '2020-01-01T10:00:00.000000Z'], 'b': ['true', 'false'],
           'g': ['52.370000,4.890000', '-33.860000,151.200000', '0.000000,0.000000'], 'u': ['http://a/b', 'x']}
@@ -37,7 +37,7 @@ def gen_event(rng):
     atts = {}
     for a in ATTS:
         if rng.random() < 0.4:
-            atts[a] = {'id%d' % i: rng.choice(['attached text', 'second\nline', 'x']) for i in range(rng.randint(1, 2))}
+            atts[a] = {'id%d' % i: rng.choice(['attached text', 'second\nline', 'x', 'path\\to\\1', '\\g<1>']) for i in range(rng.randint(1, 2))}
     return props, atts
 
 
@@ -90,7 +90,7 @@ def gen_template(rng, depth=0, valid=True):
     for _ in range(rng.randint(1, 4)):
         k = rng.randrange(10)
         if k < 3:
-            parts.append(rng.choice(['text ', 'a [bracket] b ', 'x]y ', '[ ', ' and ', '', 'colon: ', ', ']))
+            parts.append(rng.choice(['text ', 'a [bracket] b ', 'x]y ', '[ ', ' and ', '', 'colon: ', ', ', '[', ']', '[', 'see [', '] ']))
         elif k < 7:
             parts.append(gen_placeholder(rng, valid or rng.random() < 0.7))
             if rng.random() < 0.2:
